@@ -110,7 +110,7 @@ static std::vector<Bytes> templates() {
         "u@[1.2.3.4]", "u@[IPv6:2001:db8::1:2]", "u@[IPv6:::ffff:192.0.2.128]", "u@[2001:db8:1:1:1:1:1:1]", "u@localhost", "u@mailbox.localhost", "u@example.com", "u@a-b.c-d.info", "u@xn--p1ai.xn--p1ai",
         "\"fold\r\n x\"@a.com", "\" sp \"@a.com", "a@b", "a@b.", "a@b..", "a@.b", "@", "a@", "@b", "a", ".", "..", "a@[", "a@[]", "a@]", "a@[1.2.3.4", "a@1.2.3.4]", "a@[IPv6:]", "a@[:]", "a@[::]", "a@[.]",
         "a@exampleX.com", "a@example.co", "a@x.example", "a@\xE5\xBE\xAE\xE5\x8D\x9A.\xE5\xBE\xAE\xE5\x8D\x9A", "\xE2\x84\x96" "123@x.com", "a@\xE2\x99\xA5.de", "a\\b@c.com", "\"a\\\"@c.com", "\"\\", "\"", "\"\"@a.b", "a.@b.c",
-        "a@b.c.d.e.f.g.h.i.j.k.l.m.n", "a@1.2.3.4", "a@0.0", "a@-", "a@-.-", "a@a-", "a@xn--", "a@xn--a.xn--b"};
+        "a@b.c.d.e.f.g.h.i.j.k.l.m.n", "user@mail.EXAMPLE.org.", "u@example.com.", "u@company.info", "u@a.example.test", "a@1.2.3.4", "a@0.0", "a@-", "a@-.-", "a@a-", "a@xn--", "a@xn--a.xn--b"};
     return t;
 }
 
